@@ -283,3 +283,22 @@ Fixpoint kdepth (t : ktree) : nat :=
   | KWrap _ _ _ _ _ kids => S (fold_right Nat.max O (map kdepth kids))
   end.
 Definition kdepth_forest (ts : list ktree) : nat := fold_right Nat.max O (map kdepth ts).
+
+(* ------------------------------------------------------------------ KIP-31 from the broker's side (the DEFINITION of
+   the format-1 offsets, not a formula for recovering them).
+   The log assigns the messages of a batch their absolute offsets a_0 < a_1 < ... < a_k.  When the batch is stored
+   compressed in format 1, every inner message carries its offset RELATIVE to a base (the offset the first message of
+   the batch had when it was written: r_i = a_i - base, so a fresh batch has r = 0,1,..,k; after log compaction some
+   inner messages are gone and the survivors keep their r_i: gaps, possibly r_0 > 0), and the wrapper carries the
+   ABSOLUTE offset of the LAST inner message, a_k.  A consumer must report the messages at a_0 .. a_k.
+   [abs] = the (absolute offset, message) pairs of the batch as the log knows them: this is what must come back. *)
+Definition broker_batch_v1 (base attr ts : Z) (key : option (list Z)) (abs : list (Z * kmsg)) : ktree :=
+  KWrap (match last_off abs with Some a => a | None => 0 end) 1 attr ts key
+        (map (fun am => KLeaf (fst am - base) (snd am)) abs).
+(* format 0: inner messages carry their absolute offsets, the wrapper carries the last one *)
+Definition broker_batch_v0 (attr ts : Z) (key : option (list Z)) (abs : list (Z * kmsg)) : ktree :=
+  KWrap (match last_off abs with Some a => a | None => 0 end) 0 attr ts key
+        (map (fun am => KLeaf (fst am) (snd am)) abs).
+
+(* Attributes bit 3 of a format-1 message is its timestamp type (0 CreateTime, 1 LogAppendTime); format 0 has none *)
+Definition k_tstype (m : kmsg) : Z := if (k_magic m =? 1) then (k_attr m / 8) mod 2 else 0.
